@@ -433,6 +433,8 @@ def expand(f: FuncInfo | ast.AST, expr: ast.expr, depth: int = 6, _seen=None) ->
     A name with exactly one definition in the function (a plain assignment) and that is
     not a parameter is replaced, recursively, up to ``depth``.  Everything else is kept.
     """
+    if expr is None:
+        return None  # an absent argument / keyword: nothing to expand (callers compare the result with what they expect)
     node = f.node if isinstance(f, FuncInfo) else f
     params = set()
     if isinstance(node, (ast.FunctionDef, ast.AsyncFunctionDef)):
